@@ -112,6 +112,27 @@ def raw_cases():
                            ([("addassign-f", "%s += 1.5;")] if ty in ("double", "float") else [])
     ] + [
         c("const-ref-param-member-write", "    P s = {1, 2};\n    f(s);\n    println(s.x);", "error", "", pre="void f(const P& r) { r.x = 9; }\n"),
+        c("const-struct-array-elem-member", "    const P[2] ps = [{1, 2}, {3, 4}];\n    ps[0].x = 9;\n    println(ps[0].x);", "error", ""),
+        c("const-struct-array-elem-whole", "    const P[2] ps = [{1, 2}, {3, 4}];\n    P q = {7, 8};\n    ps[1] = q;\n    println(ps[1].x);", "error", "", finding="const_struct_array_element_assign"),
+        # (the first store to a const member declared without initialiser is its initialisation — the implementation's documented rule)
+        c("const-member-of-mutable-struct", "    R r;\n    r.v = 5;\n    r.id = 7;\n    println(r.id);\n    r.id = 9;\n    println(r.id);", "error", "7\n", pre="struct R { const int id; int v; };\n"),
+        c("const-string-element", "    const string s = \"abc\";\n    s[0] = 'x';\n    println(s);", "error", ""),
+        c("const-3d-array", "    const int[2][2][2] t = [[[1, 2], [3, 4]], [[5, 6], [7, 8]]];\n    t[1][0][1] = 9;\n    println(t[1][0][1]);", "error", ""),
+        c("const-array-to-writing-param", "    const int[3] a = [1, 2, 3];\n    w(a);\n    println(a[0]);", "error", "", pre="void w(int[3] q) { q[0] = 9; }\n"),
+        c("const-global-struct-method-write", "    K.bump();\n    println(K.x);", "error", "", pre="interface IB { void bump(); }\nimpl IB for P { void bump() { self.x = self.x + 1; } }\nconst P K = {1, 2};\n"),
+        c("ptr-to-const-compound", "    int d = 3;\n    const int* p = &d;\n    *p += 1;\n    println(d);", "error", ""),
+        c("ptr-to-const-arrow-incr", "    P s = {1, 2};\n    const P* p = &s;\n    p->x++;\n    println(s.x);", "error", ""),
+        c("ptr-to-const-star-member-decr", "    P s = {1, 2};\n    const P* p = &s;\n    (*p).x--;\n    println(s.x);", "error", ""),
+        c("ptr-to-const-star-incr", "    int d = 3;\n    const int* p = &d;\n    (*p)++;\n    println(d);", "error", ""),
+        c("const-ptr-to-const-both", "    int d = 3;\n    int e = 4;\n    const int* const p = &d;\n    p = &e;\n    println(*p);", "error", ""),
+        c("const-ptr-to-const-store", "    int d = 3;\n    const int* const p = &d;\n    *p = 8;\n    println(d);", "error", ""),
+        c("ptr-to-const-from-function", "    int d = 3;\n    G = 5;\n    *(getp()) = 9;\n    println(G);", "error", "", finding="ptr_to_const_lost_in_return_and_copy", pre="int G = 1;\nconst int* getp() { return &G; }\n"),
+        c("ptr-to-const-copied", "    int d = 3;\n    const int* p = &d;\n    const int* q = p;\n    *q = 9;\n    println(d);", "error", "", finding="ptr_to_const_lost_in_return_and_copy"),
+        c("ptr-to-const-copied-to-plain", "    int d = 3;\n    const int* p = &d;\n    int* q = p;\n    *q = 9;\n    println(d);", "error", "", finding="ptr_to_const_lost_in_return_and_copy"),
+        c("const-struct-copy-roundtrip", "    const P a = {1, 2};\n    P b = a;\n    b.x = 5;\n    println(a.x, b.x);", "ok", "1 5\nEND\n"),
+        c("const-local-shadows-global", "    const int g = 5;\n    g = 6;\n    println(g);", "error", "", pre="int g = 1;\n"),
+        c("const-struct-member-incr", "    const P a = {1, 2};\n    a.x++;\n    println(a.x);", "error", ""),
+        c("const-array-elem-incr-2d", "    const int[2][2] m = [[1, 2], [3, 4]];\n    m[1][0]++;\n    println(m[1][0]);", "error", ""),
         c("const-ref-param-member-addassign", "    P s = {1, 2};\n    f(s);\n    println(s.x);", "error", "", pre="void f(const P& r) { r.x += 9; }\n"),
         c("const-ref-param-nested-member-write", "    Q s;\n    s.v = 1;\n    s.in.x = 2;\n    f(s);\n    println(s.in.x);", "error", "",
           pre="struct Q { int v; P in; };\nvoid f(const Q& r) { r.in.x = 9; }\n"),
